@@ -66,7 +66,8 @@ def check(repo, res, tier):
     res.n_clauses = ["integrating the systems matches finite differences of solutions (solver numerics)",
                      "that the compiled jacobian/grad/diff_jacobian/grad_jacobian evaluate the right derivatives (C03 + sympy)"]
     n_inst = 0
-    for nS, nP in L.SHAPES:
+    shapes = list(L.SHAPES) + ([(4, 2), (2, 4), (4, 3), (1, 1)] if tier == "thorough" else [])
+    for nS, nP in shapes:
         w = L.World(repo, nS, nP)
         sh = "(nS=%d,nP=%d)" % (nS, nP)
         n_inst += 1
